@@ -4,7 +4,9 @@ Correspondence: the real `rsatoolbox.simulation.sim.make_dataset` / `make_design
 `calc_rdm(..., 'euclidean', 'cond_vec')` loop) against the Lean model `Rsa.Core.Sim`
 (driver ops `c18.*`, executed at Float).  Random draws and the results of `make_signal`
 are *recorded from outside* (np.random.uniform and sim.make_signal are wrapped for the
-duration of one call) and handed to the model as explicit arguments; the exact-signal
+duration of one call, as are np.linalg.qr / np.linalg.eigh inside make_signal) and handed to the
+model as explicit arguments; make_signal itself is recomputed by the model from the recorded draw
+and factorisation results (c18.signal); the exact-signal
 contract `S Sᵀ = n_channel · G` (hypothesis of `exact_signal_reproduces`) is checked on
 every real call; the model's own exact signal (own Cholesky / Gram–Schmidt) closes the loop
 to `signal · D` independently.
@@ -18,7 +20,8 @@ import scipy.stats as ss
 from scipy.spatial.distance import squareform
 
 import rsatoolbox
-from rsatoolbox.model import ModelFixed, ModelWeighted
+from rsatoolbox.model import ModelFixed, ModelWeighted, ModelSelect, ModelInterpolate
+from rsatoolbox.rdm import RDMs
 from rsatoolbox.simulation import sim
 from lean import fbits, unfbits, deep, first_diff
 
@@ -30,7 +33,8 @@ THEOREMS = [P + n for n in (
     'euclid_algo_eq_spec', 'simulated_rdm_eq_model', 'descriptors_contents',
     'same_signal_reused', 'same_signal_zero_noise_identical', 'fresh_signal',
     'noise_additive_sqrt', 'real_sqrt_contracts', 'design_once_per_partition',
-    'design_conditions', 'design_matrix_same_data')]
+    'design_conditions', 'design_matrix_same_data', 'make_signal_exact_coded', 'eig_clamp_threshold',
+    'real_eig_sqrt', 'euclid_is_C01_estimator', 'simulated_rdm_eq_model_C01')]
 RULE = ('cases from one PRNG: model RDM = squared distances of an integer point set (3-7 conditions, '
         'incl. collinear / duplicated / low-rank sets; fixed or weighted model), channels n_cond+{0,1,2,5} '
         '(a few below n_cond), 1-4 partitions, 1-3 simulations, dyadic signal strengths, noise 0 or >0, '
@@ -41,25 +45,28 @@ RULE = ('cases from one PRNG: model RDM = squared distances of an integer point 
 BRANCHES = ['design:only', 'cond:design', 'cond:labels', 'cond:matrix', 'cond:general', 'signal:exact', 'signal:random',
             'same', 'fresh', 'noise:zero', 'noise:pos', 'noisecov:channel', 'noisecov:trial',
             'signalcov', 'nch:eq', 'nch:gt', 'nch:lt', 'model:generic', 'model:degenerate',
-            'model:weighted', 'rdm:compared', 'own:met']
+            'model:weighted', 'rdm:compared', 'own:met',
+            'mk:fixed_vec', 'mk:fixed_mat', 'mk:fixed_rdms', 'mk:weighted', 'mk:weighted_none', 'mk:select',
+            'mk:interp', 'reject:ndim3', 'reject:scc_shape', 'reject:ncc_shape', 'reject:nct_shape',
+            'signal:coded', 'rdm:list']
 ASSUMPTIONS = [
     'the exact-signal contract S S^T = n_channel*G of make_signal is checked numerically on every real '
-    'call (rel. 1e-5); that scipy.linalg.ldl / solve meet it for every PSD input is not proved',
+    'call (rel. 1e-9); the orthonormality of np.linalg.qr and the decomposition of np.linalg.eigh are contracts, checked on every recorded result (1e-9)',
     'ss.norm.ppf is an arbitrary map from draws to reals for the theorems; the harness applies the '
     'same scipy function to the recorded uniform draws',
     'Float evaluation of both sides agrees within rtol 1e-9 (data, RDM of identical data) and within '
     '1e-5 relative to signal*max(D) for the LDL-based exact signal of the code',
 ]
 TRUSTED_EXTRA = [
-    'contract cholG cholG^T = G (scipy.linalg.ldl + clamp + sqrt) and whitening contract W W^T = n I '
-    '(ldl + np.linalg.solve): hypotheses of make_signal_exact, checked on the real calls via S S^T',
+    'np.linalg.eigh(G): G = V diag(w) V^T, V orthogonal; np.linalg.qr: orthonormal columns — hypotheses of '
+    'make_signal_exact_coded, checked (1e-9) on every result recorded inside the real make_signal',
     'np.linalg.cholesky of the covariance arguments (passed to the model as recorded factors)',
     'harness/leaves/C18.py derivation of scalar entry formulas from array expressions (np.kron, '
     'np.identity, @) before py2lean',
 ]
 
 _OWN = {}
-TOL_EXACT = 1e-5      # relative to signal * max(D): precision of the code's LDL-based exact signal
+TOL_EXACT = 1e-9      # relative to signal * max(D) (the repaired QR / eigh exact signal is accurate to ~1e-14)
 _REC = {}
 
 
@@ -116,9 +123,18 @@ def _one(rng, force=None):
     n = force.get('n_cond', rng.randint(5, 7) if mkind == 'duplicate' and rng.random() < 0.7
                   else rng.randint(3, 7))
     case = {'pts': _points(rng, n, mkind), 'mkind': mkind}
-    if rng.random() < 0.2:
+    mk = force.get('mk', rng.choice(['fixed_vec'] * 5 + ['fixed_mat', 'fixed_rdms', 'weighted', 'weighted',
+                                           'weighted_none', 'select', 'interp']))
+    case['mk'] = mk
+    if mk in ('weighted', 'weighted_none', 'select', 'interp'):
         case['pts2'] = _points(rng, n, 'any')
-        case['theta'] = [rng.choice([0.5, 1.0, 2.0]), rng.choice([0.25, 1.0, 1.5])]
+        if mk == 'weighted':
+            case['theta'] = [rng.choice([0.5, 1.0, 2.0]), rng.choice([0.25, 1.0, 1.5])]
+        elif mk == 'interp':
+            t = rng.choice([0.0, 0.25, 0.5, 1.0])
+            case['theta'] = [1.0 - t, t]
+        elif mk == 'select':
+            case['theta'] = rng.choice([0, 1])
     r = rng.random()
     if r < 0.08:
         case['n_ch'] = max(1, n - rng.randint(1, 2))
@@ -164,14 +180,31 @@ def _n_obs(case):
     return len(case['zmat'])
 
 
+def _bad(rng, kind):
+    """the malformed stream: requests make_dataset rejects (ValueError) before drawing anything"""
+    c = _one(rng, {'cond_mode': 'design', 'mk': 'fixed_vec'})
+    c['ncc'] = c['nct'] = c['scc'] = None
+    c['n_ch'] = max(c['n_ch'], len(c['pts']))
+    c['bad'] = kind
+    if kind != 'ndim3':
+        m = c['n_ch'] + 1
+        if kind == 'nct_shape' and m == _n_obs(c):
+            m += 1          # wrong under both readings of the check (n_channel and n_obs)
+        c[{'scc_shape': 'scc', 'ncc_shape': 'ncc', 'nct_shape': 'nct'}[kind]] = _spd(rng, m)
+    return c
+
+
 def generate(rng, tier):
     n = 160 if tier == 'quick' else 10000
+    for k in range(8 if tier == 'quick' else 200):
+        yield _bad(rng, ('ndim3', 'scc_shape', 'ncc_shape', 'nct_shape')[k % 4])
     # make_design alone, exhaustively over a small grid
     for nc in range(1, 7 if tier == 'quick' else 13):
         for npart in range(1, 6 if tier == 'quick' else 10):
             yield {'kind': 'design_only', 'n_cond': nc, 'n_part': npart}
     # a fixed sub-stream guarantees every branch in the quick tier
-    forced = [
+    forced = [{'mk': m, 'exact': True, 'noise': 0.0, 'scc': None, 'cond_mode': 'labels'}
+              for m in ('fixed_mat', 'fixed_rdms', 'weighted', 'weighted_none', 'select', 'interp')] + [
         {'cond_mode': 'design', 'exact': True, 'noise': 0.0, 'same': False, 'scc': None, 'mkind': 'generic'},
         {'cond_mode': 'labels', 'exact': True, 'noise': 0.0, 'same': True, 'scc': None, 'mkind': 'generic'},
         {'cond_mode': 'matrix', 'exact': True, 'noise': 0.0, 'scc': None, 'mkind': 'collinear'},
@@ -203,20 +236,49 @@ def _dvec(pts):
             for i in range(n) for j in range(i + 1, n)]
 
 
+def _mk(case):
+    return case.get('mk', 'weighted' if 'pts2' in case else 'fixed_vec')
+
+
+def _expected_dvec(case):
+    """the model's predicted RDM, computed from the points only (plain python)"""
+    d1 = _dvec(case['pts'])
+    mk = _mk(case)
+    if mk in ('fixed_vec', 'fixed_mat', 'fixed_rdms'):
+        return d1
+    d2 = _dvec(case['pts2'])
+    if mk == 'weighted_none':
+        return [a + b for a, b in zip(d1, d2)]
+    if mk == 'select':
+        return [d1, d2][case['theta']]
+    return [case['theta'][0] * a + case['theta'][1] * b for a, b in zip(d1, d2)]
+
+
 def _setup(case):
     d1 = np.array(_dvec(case['pts']))
-    if 'pts2' in case:
-        d2 = np.array(_dvec(case['pts2']))
-        model = ModelWeighted('weighted-model', np.array([d1, d2]))
-        theta = np.array(case['theta'], dtype=float)
-        dvec = theta[0] * d1 + theta[1] * d2
+    mk = _mk(case)
+    if mk == 'fixed_vec':
+        model, theta = ModelFixed('fixed-model', d1), None
+    elif mk == 'fixed_mat':
+        model, theta = ModelFixed('fixed-model', squareform(d1)), None
+    elif mk == 'fixed_rdms':
+        model, theta = ModelFixed('fixed-model', RDMs(np.array([d1]))), None
     else:
-        model = ModelFixed('fixed-model', d1)
-        theta = None
-        dvec = d1
+        d2 = np.array(_dvec(case['pts2']))
+        stack = np.array([d1, d2])
+        if mk in ('weighted', 'weighted_none'):
+            model = ModelWeighted('weighted-model', stack)
+            theta = None if mk == 'weighted_none' else np.array(case['theta'], dtype=float)
+        elif mk == 'select':
+            model, theta = ModelSelect('select-model', stack), int(case['theta'])
+        else:
+            model, theta = ModelInterpolate('interp-model', stack), np.array(case['theta'], dtype=float)
+    dvec = np.array(_expected_dvec(case), dtype=float)
     n = len(case['pts'])
     mode = case['cond_mode']
-    if mode == 'design':
+    if case.get('bad') == 'ndim3':
+        cond_vec, part_vec = np.zeros((n * case['n_part'], n, 1)), None
+    elif mode == 'design':
         cond_vec, part_vec = sim.make_design(n, case['n_part'])
     elif mode == 'labels':
         cond_vec, part_vec = np.array(case['labels']), None
@@ -225,6 +287,18 @@ def _setup(case):
     else:
         cond_vec, part_vec = np.array(case['zmat'], dtype=float), None
     return model, theta, dvec, cond_vec, part_vec
+
+
+def _model_name(case):
+    return {'weighted': 'weighted-model', 'weighted_none': 'weighted-model', 'select': 'select-model',
+            'interp': 'interp-model'}.get(_mk(case), 'fixed-model')
+
+
+def _theta_list(theta):
+    """theta as the model sees it: None or a list of floats (a scalar index is one entry)"""
+    if theta is None:
+        return None
+    return [float(x) for x in np.atleast_1d(np.asarray(theta, dtype=float))]
 
 
 def _labels_of(case):
@@ -242,33 +316,56 @@ def _cov(m):
 
 
 class _Tap:
-    """record np.random.uniform draws and sim.make_signal calls made during one call"""
+    """record np.random.uniform draws, sim.make_signal calls and the np.linalg.qr / eigh results
+    inside them, for the duration of one call"""
 
     def __enter__(self):
         self.o_ms, self.o_uni = sim.make_signal, np.random.uniform
-        self.draws, self.signals, self.depth = [], [], 0
+        self.o_qr, self.o_eigh = np.linalg.qr, np.linalg.eigh
+        self.draws, self.signals, self.depth, self.cur = [], [], 0, None
         tap = self
 
         def make_signal(G, n_channel, make_exact=False, chol_channel=None):
             tap.depth += 1
+            cur = tap.cur = {'u': None, 'q': None, 'eigval': None, 'eigvec': None}
             try:
                 out = tap.o_ms(G, n_channel, make_exact, chol_channel)
             finally:
                 tap.depth -= 1
-            tap.signals.append({'G': np.array(G, dtype=float), 'n_channel': int(n_channel),
-                                'exact': bool(make_exact), 'chol': chol_channel,
-                                'out': np.array(out, dtype=float)})
+                tap.cur = None
+            cur.update({'G': np.array(G, dtype=float), 'n_channel': int(n_channel),
+                        'exact': bool(make_exact),
+                        'chol': None if chol_channel is None else np.array(chol_channel, dtype=float),
+                        'out': np.array(out, dtype=float)})
+            tap.signals.append(cur)
             return out
 
         def uniform(low=0.0, high=1.0, size=None):
             u = tap.o_uni(low, high, size)
             tap.draws.append(('S' if tap.depth else 'N', np.array(u, dtype=float)))
+            if tap.cur is not None and tap.cur['u'] is None:
+                tap.cur['u'] = np.array(u, dtype=float)
             return u
+
+        def qr(a, *args, **kw):
+            res = tap.o_qr(a, *args, **kw)
+            if tap.cur is not None and tap.cur['q'] is None:
+                tap.cur['q'] = np.array(res[0], dtype=float)
+            return res
+
+        def eigh(a, *args, **kw):
+            res = tap.o_eigh(a, *args, **kw)
+            if tap.cur is not None and tap.cur['eigval'] is None:
+                tap.cur['eigval'] = np.array(res[0], dtype=float)      # copied before the clamp
+                tap.cur['eigvec'] = np.array(res[1], dtype=float)
+            return res
         sim.make_signal, np.random.uniform = make_signal, uniform
+        np.linalg.qr, np.linalg.eigh = qr, eigh
         return self
 
     def __exit__(self, *a):
         sim.make_signal, np.random.uniform = self.o_ms, self.o_uni
+        np.linalg.qr, np.linalg.eigh = self.o_qr, self.o_eigh
         return False
 
 
@@ -298,7 +395,7 @@ def _canon_desc(x):
 
 def _claims_rdm(case):
     """the property's consistency claim applies"""
-    return (case['exact'] and case['noise'] == 0.0 and case['scc'] is None
+    return (not case.get('bad') and case['exact'] and case['noise'] == 0.0 and case['scc'] is None
             and case['n_ch'] >= len(case['pts']) and case['cond_mode'] != 'general')
 
 
@@ -319,7 +416,8 @@ def run_impl(case):
         return {'exc': type(exc).__name__}
     _REC[key] = {'signals': [s['out'] for s in tap.signals],
                  'noise_u': [u for k, u in tap.draws if k == 'N'],
-                 'signal_u': [u for k, u in tap.draws if k == 'S']}
+                 'signal_u': [u for k, u in tap.draws if k == 'S'],
+                 'calls': tap.signals}
     n = len(case['pts'])
     res = {'design': None}
     if case['cond_mode'] == 'design':
@@ -338,6 +436,26 @@ def run_impl(case):
             sc = max(float(np.max(np.abs(g))), 1e-300)
             contract = max(contract, float(np.max(np.abs(s['out'] @ s['out'].T / case['n_ch'] - g))) / sc)
     res['contract'] = contract
+    res['signals'] = [s['out'].tolist() for s in tap.signals]
+    # contracts of the two external factorisations inside make_signal (hypotheses of
+    # make_signal_exact_coded), checked on the recorded results
+    fac = None
+    for s in tap.signals:
+        if s['eigval'] is None or (s['exact'] and s['q'] is None):
+            fac = 'not recorded (make_signal no longer calls np.linalg.eigh / qr)'
+            break
+        g, w, v = s['G'], s['eigval'], s['eigvec']
+        sc = max(float(np.max(np.abs(g))), 1e-300)
+        r1 = float(np.max(np.abs((v * w) @ v.T - g))) / sc
+        r2 = float(np.max(np.abs(v.T @ v - np.eye(len(w)))))
+        r3 = float(np.max(np.abs(s['q'].T @ s['q'] - np.eye(s['q'].shape[1])))) if s['exact'] else 0.0
+        if max(r1, r2, r3) > 1e-9:
+            fac = f'eigh/qr contract residuals {r1:.2e} {r2:.2e} {r3:.2e}'
+            break
+        if float(np.min(w)) < -1e-9 * sc:
+            fac = f'negative eigenvalue {float(np.min(w)):.3e} of G for an embeddable model'
+            break
+    res['factor_contract'] = fac
     labels = _labels_of(case)
     out = []
     for ds in dss:
@@ -346,7 +464,7 @@ def run_impl(case):
              'signal': _canon_desc(ds.descriptors.get('signal')),
              'noise': _canon_desc(ds.descriptors.get('noise')),
              'model': _canon_desc(ds.descriptors.get('model')),
-             'theta': _canon_desc(ds.descriptors.get('theta')),
+             'theta': _theta_list(ds.descriptors.get('theta')),
              'n_obs': int(ds.n_obs), 'n_ch': int(ds.n_channel), 'rdm': None}
         if labels is not None:
             if case['cond_mode'] == 'matrix':
@@ -362,20 +480,31 @@ def run_impl(case):
                 d['rdm'] = {'exc': type(exc).__name__}
         out.append(d)
     res['datasets'] = out
+    # the whole list through calc_rdm (the Iterable branch): one RDM per simulation
+    res['rdm_list'] = None
+    if labels is not None:
+        lst = dss if case['cond_mode'] != 'matrix' else [
+            rsatoolbox.data.Dataset(ds.measurements, descriptors=ds.descriptors,
+                                    obs_descriptors={'cond_vec': np.array(labels)}) for ds in dss]
+        try:
+            rl = rsatoolbox.rdm.calc_rdm(lst, method='euclidean', descriptor='cond_vec')
+            res['rdm_list'] = rl.get_vectors().tolist()
+        except (ValueError, TypeError, AssertionError, AttributeError) as exc:
+            res['rdm_list'] = {'exc': type(exc).__name__}
     return res
 
 
 # ------------------------------------------------------------------ the model
 
-def _req_names(case):
-    names = ['dataset', 'gram']
-    if case['cond_mode'] == 'design':
-        names.append('design')
-    if case['cond_mode'] == 'matrix':
-        names.append('dataset_vec')
-    if _claims_rdm(case):
-        names.append('own')
-    return names
+_NAMES = {}
+
+
+def _validate_request(case):
+    def shp(m):
+        return None if m is None else [len(m), len(m[0])]
+    ndim = 3 if case.get('bad') == 'ndim3' else (1 if case['cond_mode'] in ('design', 'labels') else 2)
+    return {'op': 'c18.validate', 'cond_ndim': ndim, 'n_ch': case['n_ch'], 'scc': shp(case['scc']),
+            'ncc': shp(case['ncc']), 'nct': shp(case['nct'])}
 
 
 def model_requests(case):
@@ -385,8 +514,10 @@ def model_requests(case):
     if key not in _REC:
         run_impl(case)
     rec = _REC.get(key)
+    named = [('validate', _validate_request(case))]
     if rec is None:
-        return []
+        _NAMES[key] = [k for k, _ in named]
+        return [r for _, r in named]
     n = len(case['pts'])
     _, theta, dvec, cond_vec, _ = _setup(case)
     labels = _labels_of(case)
@@ -397,24 +528,36 @@ def model_requests(case):
 
     def chol(m):
         return None if m is None else deep(fbits, np.linalg.cholesky(np.array(m, dtype=float)))
+    th = _theta_list(theta)
     dataset = {
         'op': 'c18.dataset', 'n_cond': n, 'n_ch': case['n_ch'], 'n_sim': case['n_sim'],
         'signal': fbits(case['signal']), 'noise': fbits(case['noise']), 'same': case['same'],
         'cond': cond, 'signals': [deep(fbits, s) for s in rec['signals']],
         'noises': [deep(fbits, ss.norm.ppf(u)) for u in rec['noise_u']],
         'chol_c': chol(case['ncc']), 'chol_t': chol(case['nct']),
-        'model': 'weighted-model' if 'pts2' in case else 'fixed-model',
-        'theta': None if theta is None else deep(fbits, theta)}
-    reqs = {'dataset': dataset, 'gram': {'op': 'c18.gram', 'n': n, 'rdm': deep(fbits, dvec)},
-            'design': {'op': 'c18.design', 'n_cond': n, 'n_part': case['n_part']},
-            'dataset_vec': dict(dataset, cond={'vec': labels})}
+        'model': _model_name(case), 'theta': None if th is None else deep(fbits, th)}
+    named += [('dataset', dataset), ('gram', {'op': 'c18.gram', 'n': n, 'rdm': deep(fbits, dvec)})]
+    if case['cond_mode'] == 'design':
+        named.append(('design', {'op': 'c18.design', 'n_cond': n, 'n_part': case['n_part']}))
+    if case['cond_mode'] == 'matrix':
+        named.append(('dataset_vec', dict(dataset, cond={'vec': labels})))
     if _claims_rdm(case):
         w = max(n, case['n_ch'])
         z = ss.norm.ppf(rec['signal_u'][0]) if rec['signal_u'] and rec['signal_u'][0].shape == (n, w) \
             else np.zeros((n, w))
-        reqs['own'] = {'op': 'c18.own', 'n_cond': n, 'n_ch': case['n_ch'], 'rdm': deep(fbits, dvec),
-                       'z': deep(fbits, z), 'vec': labels, 'signal': fbits(case['signal'])}
-    return [reqs[k] for k in _req_names(case)]
+        named.append(('own', {'op': 'c18.own', 'n_cond': n, 'n_ch': case['n_ch'], 'rdm': deep(fbits, dvec),
+                              'z': deep(fbits, z), 'vec': labels, 'signal': fbits(case['signal'])}))
+    # make_signal as coded (QR / eigh results recorded from the real call)
+    for i, c in enumerate(rec['calls']):
+        if c['u'] is None or c['eigval'] is None or (c['exact'] and c['q'] is None):
+            continue
+        named.append((f'signal{i}', {
+            'op': 'c18.signal', 'n_cond': n, 'n_ch': case['n_ch'], 'exact': c['exact'],
+            'z': deep(fbits, ss.norm.ppf(c['u'])), 'q': None if c['q'] is None else deep(fbits, c['q']),
+            'eigval': deep(fbits, c['eigval']), 'eigvec': deep(fbits, c['eigvec']),
+            'chol_s': None if c['chol'] is None else deep(fbits, c['chol'])}))
+    _NAMES[key] = [k for k, _ in named]
+    return [r for _, r in named]
 
 
 def _unf(x):
@@ -430,9 +573,13 @@ def model_result(case, answers):
     if _design_only(case):
         return {'design': {'cond': [float(v) for v in answers[0]['cond']],
                            'part': [float(v) for v in answers[0]['part']]}}
-    ans = dict(zip(_req_names(case), answers))
+    ans = dict(zip(_NAMES.get(_key(case), []), answers))
+    if 'dataset' not in ans:
+        return {'accepts': ans.get('validate'), 'no_recording': True}
     ds = ans['dataset']
-    res = {'G': _unf(ans['gram']), 'plan': ''.join('S' if k else 'N' for k, _ in ds['plan']),
+    res = {'accepts': ans.get('validate'),
+           'coded_signals': {int(k[6:]): _unf(v['signal']) for k, v in ans.items() if k.startswith('signal')},
+           'G': _unf(ans['gram']), 'plan': ''.join('S' if k else 'N' for k, _ in ds['plan']),
            'n_signal_calls': ds['n_signal_calls'], 'n_cols': ds['n_cols'], 'gen_width': ds['gen_width'],
            'design': None, 'own': None}
     out = []
@@ -475,8 +622,7 @@ def _own_met(case, model):
 
 
 def _expected_rdm(case):
-    _, _, dvec, _, _ = _setup(case)
-    return [case['signal'] * float(v) for v in dvec]
+    return [case['signal'] * float(v) for v in _expected_dvec(case)]
 
 
 def compare(case, impl, model):
@@ -486,8 +632,13 @@ def compare(case, impl, model):
         return f'model error {model}'
     if _design_only(case):
         return first_diff(impl['design'], model['design'], 0, 0, 'make_design')
+    accepts = model.get('accepts')
     if 'exc' in impl:
-        return f"implementation raised {impl['exc']} on a valid simulation request"
+        if impl['exc'] == 'ValueError' and accepts is False:
+            return None           # both reject the request
+        return f"implementation raised {impl['exc']}, model accepts={accepts}"
+    if accepts is False:
+        return 'model rejects the request (ValueError), implementation returned datasets'
     if model.get('no_recording'):
         return 'no recording of the real call'
     n = len(case['pts'])
@@ -530,6 +681,26 @@ def compare(case, impl, model):
                            f'dataset[{k}].rdm(calc_rdm vs model on the same data)')
             if d:
                 return d
+    # make_signal as coded: model signal from the recorded draw and qr / eigh results
+    if impl['factor_contract']:
+        return f"make_signal factor step: {impl['factor_contract']}"
+    if len(model['coded_signals']) != len(impl['signals']):
+        return f"{len(impl['signals'])} make_signal calls, {len(model['coded_signals'])} modelled"
+    for i_s, sig in enumerate(impl['signals']):
+        sscale = max(1.0, max(abs(x) for r in sig for x in r))
+        d = first_diff(sig, model['coded_signals'][i_s], 1e-9, 1e-9 * sscale, f'make_signal[{i_s}]')
+        if d:
+            return d
+    # calc_rdm on the whole list of simulated datasets
+    if impl['rdm_list'] is not None:
+        if isinstance(impl['rdm_list'], dict):
+            return f"calc_rdm(list of simulated datasets) raised {impl['rdm_list']['exc']}"
+        mr = [b['rdm'] for b in model['datasets']]
+        if all(r is not None for r in mr):
+            d = first_diff(impl['rdm_list'], mr, 1e-9, 1e-9 * max(rscale, 1.0) * 1e3,
+                           'calc_rdm(list) vs model RDMs')
+            if d:
+                return d
     if _claims_rdm(case):
         if impl['contract'] is None or not impl['contract'] <= TOL_EXACT:
             return (f"exact-signal contract S S^T = n_channel*G violated on the real call: "
@@ -551,7 +722,9 @@ def compare(case, impl, model):
 def _degenerate(case):
     """duplicated points or a vanishing leading minor of the centred second-moment matrix"""
     pts = [tuple(p) for p in case['pts']]
-    if 'pts2' in case:
+    if _mk(case) == 'select':
+        pts = [tuple(p) for p in [case['pts'], case['pts2']][case['theta']]]
+    elif 'pts2' in case:
         pts = [tuple(p) + tuple(q) for p, q in zip(case['pts'], case['pts2'])]
     return len(set(pts)) < len(pts)
 
@@ -571,15 +744,24 @@ def features(case, impl):
     if case['scc'] is not None:
         b.append('signalcov')
     if 'pts2' in case:
-        b.append('model:weighted')
+        b.append('model:weighted')   # any model built from two RDMs
     if _claims_rdm(case):
         b.append('rdm:compared')
     # whether the model's own factor instances met their contract is known once compare() ran
     if _OWN.get(_key(case)):
         b.append('own:met')
+    b.append('mk:' + _mk(case))
+    if case.get('bad'):
+        b = ['reject:' + case['bad']]
+    elif impl is not None and 'exc' not in impl:
+        if impl.get('signals') and not impl.get('factor_contract'):
+            b.append('signal:coded')
+        if isinstance(impl.get('rdm_list'), list):
+            b.append('rdm:list')
     return {'n_cond': n, 'n_ch_minus_n_cond': case['n_ch'] - n, 'cond_mode': case['cond_mode'],
             'exact': case['exact'], 'same': case['same'], 'noise_zero': case['noise'] == 0.0,
-            'model_degenerate': _degenerate(case), 'claims_rdm': _claims_rdm(case),
+            'model_degenerate': _degenerate(case), 'claims_rdm': _claims_rdm(case), 'mk': _mk(case),
+            'bad': case.get('bad'),
             'n_sim': case['n_sim'], 'branches': b}
 
 
@@ -631,6 +813,8 @@ def oracle(case):
                                  {'cond_vec': cv, 'part_vec': pv}, 'exactly once', failure='design')
     if _design_only(case):
         return None
+    if case.get('bad'):
+        return None     # rejections are not part of the property's statement
     try:
         dss, (model, theta, dvec, cond_vec) = _call(case)
         dss0, _ = _call(case, noise=0.0)
@@ -650,9 +834,9 @@ def oracle(case):
             return _fail(f'dataset {k}: obs descriptor cond_vec is not the condition vector passed',
                          got, _canon_desc(cond_vec), failure='descriptor')
         want = {'signal': float(case['signal']), 'noise': float(case['noise']), 'model': model.name,
-                'theta': _canon_desc(theta)}
+                'theta': _theta_list(theta)}
         for f, w in want.items():
-            g = _canon_desc(ds.descriptors.get(f))
+            g = _theta_list(ds.descriptors.get(f)) if f == 'theta' else _canon_desc(ds.descriptors.get(f))
             if g != w:
                 return _fail(f'dataset {k}: descriptor {f}', g, w, failure='descriptor')
     m = [np.asarray(ds.measurements, dtype=float) for ds in dss]
@@ -691,7 +875,7 @@ def oracle(case):
     # calc_rdm by condition; under the property's conditions the result is signal * model RDM
     labels = _labels_of(case)
     if labels is not None:
-        want = [case['signal'] * float(v) for v in dvec]
+        want = [case['signal'] * float(v) for v in _expected_dvec(case)]
         rscale = max(max(abs(w) for w in want), 1e-12)
         for k, ds in enumerate(dss):
             if case['cond_mode'] == 'matrix':
@@ -737,7 +921,7 @@ def shrink(case, still_fails):
         if any(cur.get(k) != v for k, v in upd.items()):
             attempt(dict(cur, **upd))
     if 'pts2' in cur:
-        c = {k: v for k, v in cur.items() if k not in ('pts2', 'theta')}
+        c = dict({k: v for k, v in cur.items() if k not in ('pts2', 'theta')}, mk='fixed_vec')
         attempt(c)
     if cur['cond_mode'] in ('labels', 'matrix'):
         attempt(dict({k: v for k, v in cur.items() if k != 'labels'}, cond_mode='design'))
